@@ -46,10 +46,11 @@ RECORD = {"quick": (300, 6, 10), "thorough": (1500, 6, 12)}     # traces, min de
 ALL_OPS = ["Neg", "Abs", "Sqrt", "Sin", "Sinh", "Cos", "Cosh", "Tan", "Tanh", "Exp", "Log", "Log1p", "Log1pExp",
            "Logistic", "Sigmoid", "Erf", "Erfc", "LogErfc", "Gamma", "Lgamma", "Add", "Sub", "Mul", "Div", "Pow",
            "Min", "Max", "LogAdd", "LogSub", "Mlgamma", "GammaP", "BesselI", "LogBesselI", "Vmean", "VdotV", "Vnorm",
-           "SmoothMax", "LogSmoothMax", "Mtrace", "Mnorm"]
+           "SmoothMax", "LogSmoothMax", "Mtrace", "Mnorm", "Activate"]
 BRANCHES = ["Log1pExp:x<=-37", "Log1pExp:-37<x<=18", "Log1pExp:18<x<=33.3", "Log1pExp:x>33.3", "Sigmoid:x>=0",
             "Sigmoid:x<0", "Abs:x<0", "Abs:x=0", "Abs:x>0", "Pow:variable exponent", "Pow:constant exponent",
-            "Pow:base 0"]
+            "Pow:base 0"] + ["Activate:%s shape/%s" % (s, a) for s in ("same", "new")
+                             for a in ("setvariable", "variables", "resetset")]
 
 
 def add_counts(total, part):
